@@ -172,6 +172,16 @@ Definition rel_to_config (stack : list source) : bool :=
   | None => false
   end.
 
+(* the check main() makes itself after the template validation (repair of F27):
+   isinstance(settings[rst][headers].get(), dict) -> ConfigTypeError.  view.get() without a
+   template is the raw value of the highest-priority source that sets the option, so the check
+   fails exactly when that value is a mapping (StrSeq alone would take its keys, see convert) *)
+Definition headers_ok (stack : list source) : bool :=
+  match resolve stack (s"rst.headers") with
+  | Some (YMap _, _) => false
+  | _ => true
+  end.
+
 (* every option of the template, resolved: None = main() raises *)
 Fixpoint settings_of (cwd : str) (stack : list source) (tmpl : list (str * oty))
   : option (list (str * cval)) :=
